@@ -443,10 +443,12 @@ func (lb *LoadBalancer) AddBackend(backendCfg config.BackendConfig) error {
 
 	// Create a reverse proxy for this backend with optimized transport
 	proxy := httputil.NewSingleHostReverseProxy(backendURL)
-	// Hand on what the backend has flushed without waiting for more: by default the proxy
-	// only does so for responses of unknown length and event streams, and a response with a
-	// declared length that is produced slowly would sit in the buffer until it ends
-	proxy.FlushInterval = -1
+	// Hand on what the backend has sent without waiting for the response to end: by default
+	// the proxy only does so for responses of unknown length and event streams, and a response
+	// with a declared length that is produced slowly would sit in the buffer until it ends.
+	// A short interval rather than a flush after every write: a response that is complete at
+	// once is never flushed, so plugins that look at the whole response (gzip) still get it
+	proxy.FlushInterval = 100 * time.Millisecond
 
 	// Configure custom transport with timeouts (LEETCODE-STYLE OPTIMIZATION!)
 	dialTimeout := time.Duration(lb.config.Server.Timeouts.BackendDial) * time.Second
